@@ -180,6 +180,8 @@ structure IL (s : Nat) (pend0 : Nat → List Tok) (c0 : Cache) (st : P1) : Prop 
   coh : Coherent st.cache
   fr : Frame s c0 st.cache
   slot : st.seq.slot = s
+  bs : ∀ t ∈ st.batch, t.seq < st.cache.slots.length
+  oo : ∀ bi ∈ st.outs, bi < st.batch.length
   bv : BV st.cache st.batch (upd pend0 s st.seq.pending)
 
 theorem view_map_append (a b : List BTok) (j : Nat) :
@@ -195,11 +197,23 @@ theorem IL_add (s : Nat) (pend0 : Nat → List Tok) (c0 : Cache) (st : P1) (inp 
     (h : IL s pend0 c0 st) (hs : s < c0.slots.length)
     (hroom : (getSlot st.cache.slots s).inputs.length + st.seq.pending.length + 1 ≤ st.cache.numCtx) :
     IL s pend0 c0 (addInput st st.cache st.seq inp i) := by
-  obtain ⟨coh, fr, slot, bv⟩ := h
+  obtain ⟨coh, fr, slot, bs, oo, bv⟩ := h
   have hs' : s < st.cache.slots.length := by rw [fr.len]; exact hs
   have hid : (getSlot st.cache.slots s).id = s := by
     rw [getSlot_eq _ _ hs']; exact (coh.2 s hs').1
-  refine ⟨coh, fr, slot, ?_, ?_⟩
+  refine ⟨coh, fr, slot, ?_, ?_, ?_, ?_⟩
+  · intro t ht
+    simp only [addInput, slot, hid, List.mem_append, List.mem_singleton] at ht ⊢
+    rcases ht with ht | rfl
+    · exact bs t ht
+    · exact hs'
+  · intro bi hbi
+    simp only [addInput, List.length_append, List.length_singleton] at hbi ⊢
+    split at hbi
+    · rcases List.mem_append.mp hbi with h1 | h1
+      · have := oo bi h1; omega
+      · simp only [List.mem_singleton] at h1; omega
+    · have := oo bi hbi; omega
   · intro j hj
     have hj' : j < st.cache.slots.length := hj
     obtain ⟨hv, hl⟩ := bv.1 j hj'
@@ -244,7 +258,7 @@ theorem innerLoop_IL (bs seqIdx s : Nat) (pend0 : Nat → List Tok) (c0 : Cache)
     · simp only [hfull, if_true, pure, Except.pure, Except.ok.injEq] at hr
       subst hr
       split
-      · exact ⟨h.coh, h.fr, h.slot, h.bv⟩
+      · exact ⟨h.coh, h.fr, h.slot, h.bs, h.oo, h.bv⟩
       · exact h
     · simp only [hfull, if_false] at hr
       have hs' : s < st.cache.slots.length := by rw [h.fr.len]; exact hs
@@ -269,7 +283,7 @@ theorem innerLoop_IL (bs seqIdx s : Nat) (pend0 : Nat → List Tok) (c0 : Cache)
             obtain ⟨hfr, hnil⟩ := shift_re_shape st.cache s _ c ins hs' hsh
             have hcoh := coherent_shift st.cache h.coh s _ hs' hu' hlenI c (Or.inr ⟨hcfg'.fix, ins, hsh⟩)
             apply ih (i + 1) _ st' _ hr
-            refine ⟨hcoh, h.fr.trans hfr, rfl, ?_, ?_⟩
+            refine ⟨hcoh, h.fr.trans hfr, rfl, fun t ht => by simp only [hfr.len]; exact h.bs t ht, h.oo, ?_, ?_⟩
             · intro j hj
               simp only at hj
               have hj' : j < st.cache.slots.length := by rw [← hfr.len]; exact hj
@@ -288,7 +302,7 @@ theorem innerLoop_IL (bs seqIdx s : Nat) (pend0 : Nat → List Tok) (c0 : Cache)
             have hcoh := coherent_shift st.cache h.coh s _ hs' hu' hlenI c (Or.inl hsh)
             apply ih (i + 1) _ st' _ hr
             have hmid : IL s pend0 c0 { st with cache := c } := by
-              refine ⟨hcoh, h.fr.trans hfr, h.slot, ?_, ?_⟩
+              refine ⟨hcoh, h.fr.trans hfr, h.slot, fun t ht => by simp only [hfr.len]; exact h.bs t ht, h.oo, ?_, ?_⟩
               · intro j hj
                 simp only at hj
                 have hj' : j < st.cache.slots.length := by rw [← hfr.len]; exact hj
@@ -477,6 +491,11 @@ theorem PInv_inner (sv : Server) (batch : List BTok) (pend : Nat → List Tok) (
         exact fun e => hjs e.symm
       · exact hno i'' sq'' (hback _ _ hii hl'')
 
+theorem removeSequence_outs (sv : Server) (o : StepObs) (i : Nat) (sq : Seq) (r : Nat) :
+    (removeSequence sv o i sq r).2.outs = o.outs := by
+  unfold removeSequence
+  simp only; split <;> rfl
+
 theorem removeSequence_batch (sv : Server) (o : StepObs) (i : Nat) (sq : Seq) (r : Nat) :
     (removeSequence sv o i sq r).2.batch = o.batch ∧
     (removeSequence sv o i sq r).1 = releaseSv sv i sq.slot := by
@@ -501,19 +520,24 @@ theorem mod_add_ne (n idx m : Nat) (hidx : idx < n) (h1 : 1 ≤ m) (hm : m < n) 
   rw [Nat.add_sub_cancel_left, Nat.mod_eq_of_lt hm] at h3
   omega
 
+/-- every batch token belongs to an existing slot; every output index points into the batch -/
+def BO (st : Ph1) : Prop :=
+  (∀ t ∈ st.obs.batch, t.seq < st.sv.cache.slots.length) ∧ (∀ bi ∈ st.outs, bi < st.obs.batch.length) ∧
+    st.obs.outs = []
+
 /-- **Batch assembly (the outer loop of processBatch) keeps the cache coherent and the slots owned**, for any
     number of sequences batched together. -/
 theorem phase1_PInv : ∀ (k : Nat) (st st' : Ph1), phase1 k st = .ok st' → k ≤ st.sv.seqs.length →
-    Fut st.sv st.seqIdx k → (∃ pend, PInv st.sv st.obs.batch pend) →
-    (∃ pend, PInv st'.sv st'.obs.batch pend) ∧ st'.sv.seqs.length = st.sv.seqs.length := by
+    Fut st.sv st.seqIdx k → (∃ pend, PInv st.sv st.obs.batch pend) → BO st →
+    (∃ pend, PInv st'.sv st'.obs.batch pend) ∧ st'.sv.seqs.length = st.sv.seqs.length ∧ BO st' := by
   intro k
   induction k with
   | zero =>
-    intro st st' hr _ _ h
+    intro st st' hr _ _ h hbo
     simp only [phase1, pure, Except.pure, Except.ok.injEq] at hr
-    subst hr; exact ⟨h, rfl⟩
+    subst hr; exact ⟨h, rfl, hbo⟩
   | succ k ih =>
-    intro st st' hr hk hfut h
+    intro st st' hr hk hfut h hbo
     obtain ⟨pend, h⟩ := h
     unfold phase1 at hr
     simp only at hr
@@ -531,7 +555,7 @@ theorem phase1_PInv : ∀ (k : Nat) (st st' : Ph1), phase1 k st = .ok st' → k 
       have := ih _ st' hr (by simp only; omega) (by
         intro i sq hl hp m h1 h2
         simp only at hl ⊢
-        rw [hshift]; exact hfut i sq hl hp (m + 1) (by omega) (by omega)) ⟨pend, h⟩
+        rw [hshift]; exact hfut i sq hl hp (m + 1) (by omega) (by omega)) ⟨pend, h⟩ hbo
       exact this
     | some sq =>
       simp only [hq] at hr
@@ -554,9 +578,12 @@ theorem phase1_PInv : ∀ (k : Nat) (st st' : Ph1), phase1 k st = .ok st' → k 
           · simp only [releaseSv, setSeq, List.length_set]
             rw [hshift]; exact hfut i sq' hold hp (m + 1) (by omega) (by omega)) ⟨pend, by
           simp only [hb, hsv]
-          exact PInv_release st.sv st.obs.batch pend idx sq h hl hpe⟩
-        refine ⟨hres, ?_⟩
-        rw [hlen]; simp only [hsv, releaseSv, setSeq, List.length_set]
+          exact PInv_release st.sv st.obs.batch pend idx sq h hl hpe⟩ (by
+          unfold BO
+          simp only [hb, hsv, releaseSv, setSlot_length, removeSequence_outs]
+          exact hbo)
+        refine ⟨hres, ?_, hlen.2⟩
+        rw [hlen.1]; simp only [hsv, releaseSv, setSeq, List.length_set]
       · cases hin : innerLoop st.sv.batchSize idx sq.inputs 0
             { cache := st.sv.cache, seq := sq, batch := st.obs.batch, outs := st.outs, resume := st.resume } with
         | error e => simp [hin, bind, Except.bind] at hr
@@ -564,7 +591,7 @@ theorem phase1_PInv : ∀ (k : Nat) (st st' : Ph1), phase1 k st = .ok st' → k 
           simp only [hin, bind, Except.bind] at hr
           obtain ⟨hsv, hsu⟩ := h.own.valid idx sq hl
           have hil := innerLoop_IL st.sv.batchSize idx sq.slot pend st.sv.cache h.cfg hsv hsu sq.inputs 0 _ p
-            ⟨h.coh, Frame.refl _ _, rfl, by simp only [h.lp idx sq hl, upd_self]; exact h.bv⟩ hin
+            ⟨h.coh, Frame.refl _ _, rfl, hbo.1, hbo.2.1, by simp only [h.lp idx sq hl, upd_self]; exact h.bv⟩ hin
           obtain ⟨hres, hlen⟩ := ih _ st' hr (by simp only [setSeq, List.length_set]; omega) (by
             intro i sq' hl' hp m h1 h2
             simp only at hl' ⊢
@@ -574,9 +601,9 @@ theorem phase1_PInv : ∀ (k : Nat) (st st' : Ph1), phase1 k st = .ok st' → k 
             rcases (live_set _ _ _ hidxlt _ _).mp hl' with ⟨hii, _⟩ | ⟨_, hold⟩
             · rw [hii]; exact mod_add_ne _ _ _ hidxlt h1 (by omega)
             · rw [hshift]; exact hfut i sq' hold hp (m + 1) (by omega) (by omega))
-            ⟨_, PInv_inner st.sv st.obs.batch pend idx sq p _ h hl hil⟩
-          refine ⟨hres, ?_⟩
-          rw [hlen]; simp only [setSeq, List.length_set]
+            ⟨_, PInv_inner st.sv st.obs.batch pend idx sq p _ h hl hil⟩ ⟨hil.bs, hil.oo, hbo.2.2⟩
+          refine ⟨hres, ?_, hlen.2⟩
+          rw [hlen.1]; simp only [setSeq, List.length_set]
 
 /-! ## Forward: the whole mixed batch is stored at once -/
 
@@ -1081,8 +1108,12 @@ theorem processBatch_SInv (sv : Server) (adopt : Option (List Cell)) (sv' : Serv
   have hP0 : PInv (ph1Init sv).sv (ph1Init sv).obs.batch (fun _ => []) := by
     refine ⟨hinv.coh, hinv.cfg, hinv.own, ⟨fun j hj => ⟨rfl, by have := hinv.lenb j hj; simp only [ph1Init, List.length_nil, Nat.add_zero]; exact this⟩, fun t ht => by cases ht⟩,
       fun i sq hl => hinv.idle i sq hl, fun _ _ _ => rfl⟩
-  obtain ⟨⟨pend, hP⟩, hlen⟩ := phase1_PInv sv.seqs.length (ph1Init sv) p hp1 (Nat.le_refl _)
-    (fun i sq hl hne => absurd (hinv.idle i sq hl) hne) ⟨_, hP0⟩
+  obtain ⟨⟨pend, hP⟩, hlen, hbo⟩ := phase1_PInv sv.seqs.length (ph1Init sv) p hp1 (Nat.le_refl _)
+    (fun i sq hl hne => absurd (hinv.idle i sq hl) hne) ⟨_, hP0⟩ (by
+      unfold BO ph1Init
+      refine ⟨?_, ?_, rfl⟩
+      · intro t ht; cases ht
+      · intro bi hbi; cases hbi)
   have hlen' : p.sv.seqs.length = sv.seqs.length := hlen
   have hpu : ∀ j, j < p.sv.cache.slots.length → pend j ≠ [] → (getSlot p.sv.cache.slots j).inUse = true := by
     intro j hj hne
@@ -1125,6 +1156,38 @@ theorem processBatch_SInv (sv : Server) (adopt : Option (List Cell)) (sv' : Serv
     rw [Nat.zero_add] at hR
     have hl4 : sv'.seqs.length = sv.seqs.length := hl3.trans hlen'
     exact ⟨SInv_of_R sv' pend' _ hl4.symm hR, hl4⟩
+
+/-! ## what processBatch samples depends only on the effective input -/
+
+theorem phase3Seq_outs (logits : List Tok) (i : Nat) (sv : Server) (o : StepObs) (sq : Seq) :
+    (phase3Seq logits i sv o sq).2.outs = o.outs := by
+  unfold phase3Seq
+  simp only
+  split
+  · rfl
+  · split
+    · exact removeSequence_outs ..
+    · split
+      · exact removeSequence_outs ..
+      · split
+        · rfl
+        · simp only; split <;> rfl
+
+theorem phase3_outs (logits : List Tok) : ∀ (k i : Nat) (sv : Server) (o : StepObs),
+    (phase3 logits k i sv o).2.outs = o.outs := by
+  intro k
+  induction k with
+  | zero => intro i sv o; rfl
+  | succ k ih =>
+    intro i sv o
+    unfold phase3
+    split
+    · exact ih ..
+    · simp only; rw [ih, phase3Seq_outs]
+
+theorem getD_mem {α} (l : List α) (i : Nat) (d : α) (h : i < l.length) : l.getD i d ∈ l := by
+  rw [List.getD_eq_getElem?_getD, List.getElem?_eq_getElem h]
+  exact List.getElem_mem h
 
 /-! ## admission (`completion`'s slot-loading block) and whole histories -/
 
